@@ -68,10 +68,13 @@ import (
 
 const (
 	publicURL = "https://as.c02.example"
-	subject   = "alice" // the tenant whose authorization server is asked
+	subject   = "issuer"   // the tenant whose authorization server is asked by default
+	tenantB   = "issuer-b" // a second tenant on the same node whose id EXTENDS the first one's (prefix-related ids)
 )
 
-var asURL = publicURL + "/oauth2/" + subject
+var asURL = tenantURL(subject)
+
+func tenantURL(tenant string) string { return publicURL + "/oauth2/" + tenant }
 
 // ---------------------------------------------------------------- parties & environment ----
 
@@ -236,6 +239,7 @@ func newEnv(t *testing.T, r *ev.Run) *env {
 	e.auth.EXPECT().SupportedDIDMethods().Return([]string{"web", "jwk"}).AnyTimes()
 	e.subj = didsubject.NewMockManager(ctrl)
 	e.subj.EXPECT().Exists(gomock.Any(), subject).Return(true, nil).AnyTimes()
+	e.subj.EXPECT().Exists(gomock.Any(), tenantB).Return(true, nil).AnyTimes()
 	e.subj.EXPECT().Exists(gomock.Any(), "bob").Return(true, nil).AnyTimes()
 	e.subj.EXPECT().Exists(gomock.Any(), gomock.Any()).Return(false, nil).AnyTimes()
 	return e
@@ -366,6 +370,7 @@ type reqSpec struct {
 	// PreRequest: a request sent before this one to the same server, re-using the nonce of VP[PreVP]
 	Pre     string // "" | "valid" | "invalid"
 	Labels  []string
+	Tenant  string // the tenant whose token endpoint the request is posted to ("" = subject)
 	LD      bool // presentations are JSON-LD (JsonWebSignature2020) built by the node's own wallet; credentials stay JWT
 }
 
@@ -562,6 +567,7 @@ type entryFacts struct {
 }
 
 type reqFacts struct {
+	Tenant                      string // tenant of the endpoint the request is sent to
 	Scope, Definition, ClientID string
 	VPs                         []vpFacts
 	Entries                     []entryFacts
@@ -810,7 +816,7 @@ func (e *env) ref(f reqFacts, seen map[string]bool) (bool, string) {
 			return false, "no-creation-or-expiry"
 		case v.Exp-v.Created > 5:
 			return false, "valid-too-long"
-		case !has(v.Aud, asURL):
+		case !has(v.Aud, tenantURL(f.Tenant)): // exact string: addressed to THIS authorization server
 			return false, "audience"
 		case v.Nonce == "":
 			return false, "nonce-missing"
@@ -926,9 +932,58 @@ func lastCred(rs *reqSpec) *credSpec {
 	return &v.Creds[len(v.Creds)-1]
 }
 
+// audienceNearMisses: every near-miss of the expected audience string, computed from it.
+func audienceNearMisses() []struct {
+	Name string
+	Mut  func(expected string) string
+} {
+	type nm = struct {
+		Name string
+		Mut  func(expected string) string
+	}
+	lastSeg := func(e string) (string, string) { i := strings.LastIndex(e, "/"); return e[:i+1], e[i+1:] }
+	return []nm{
+		{"aud-proper-prefix", func(e string) string { return e[:len(e)-1] }},
+		{"aud-parent-path", func(e string) string { p, _ := lastSeg(e); return p }},
+		{"aud-extended-dash-b", func(e string) string { return e + "-b" }}, // the other tenant when sent to `issuer`
+		{"aud-extended-slash-x", func(e string) string { return e + "/x" }},
+		{"aud-extended-x", func(e string) string { return e + "x" }},
+		{"aud-extended-token-endpoint", func(e string) string { return e + "/token" }},
+		{"aud-other-tenant-same-host", func(e string) string { p, _ := lastSeg(e); return p + "bob" }},
+		{"aud-path-case-changed", func(e string) string { p, l := lastSeg(e); return p + strings.ToUpper(l) }},
+		{"aud-trailing-slash", func(e string) string { return e + "/" }},
+		{"aud-scheme-http", func(e string) string { return "http://" + strings.TrimPrefix(e, "https://") }},
+		{"aud-host-with-port", func(e string) string { return strings.Replace(e, "as.c02.example", "as.c02.example:443", 1) }},
+		{"aud-percent-encoded", func(e string) string { p, l := lastSeg(e); return p + fmt.Sprintf("%%%02x", l[0]) + l[1:] }},
+		{"aud-other-host", func(e string) string { return strings.Replace(e, "as.c02.example", "as.c02.example.evil.example", 1) }},
+		{"aud-with-query", func(e string) string { return e + "?x=1" }},
+		{"aud-with-fragment", func(e string) string { return e + "#x" }},
+	}
+}
+
+func postedTo(rs *reqSpec) string {
+	if rs.Tenant != "" {
+		return rs.Tenant
+	}
+	return subject
+}
+
 func alphabet() []defect {
-	return []defect{
-		{"wrong-audience", func(e *env, rs *reqSpec) { last(rs).Aud = []string{publicURL + "/oauth2/bob"} }},
+	// the tenant switch comes first so that the audience near-misses are computed from the audience the FINAL endpoint expects
+	al := []defect{
+		{"posted-to-the-other-tenant", func(e *env, rs *reqSpec) { rs.Tenant = tenantB }}, // still addressed to `issuer`
+		{"addressed-and-posted-to-the-other-tenant", func(e *env, rs *reqSpec) { // not a defect by itself
+			rs.Tenant = tenantB
+			for i := range rs.VPs {
+				rs.VPs[i].Aud = []string{tenantURL(tenantB)}
+			}
+		}},
+	}
+	for _, nm := range audienceNearMisses() {
+		nm := nm
+		al = append(al, defect{nm.Name, func(e *env, rs *reqSpec) { last(rs).Aud = []string{nm.Mut(tenantURL(postedTo(rs)))} }})
+	}
+	return append(al, []defect{
 		{"no-audience", func(e *env, rs *reqSpec) { last(rs).Aud = nil }},
 		{"validity-6s", func(e *env, rs *reqSpec) { last(rs).NbfIn, last(rs).ExpIn = i64(-1), i64(5) }},
 		{"validity-11s", func(e *env, rs *reqSpec) { last(rs).NbfIn, last(rs).ExpIn = i64(-1), i64(10) }},
@@ -1029,7 +1084,7 @@ func alphabet() []defect {
 				rs.Definition = "pd_both_org"
 			}
 		}},
-	}
+	}...)
 }
 
 // subsets of {0..n-1} of size <= k in a fixed order (by size, then lexicographic)
@@ -1065,8 +1120,12 @@ func (n *node) send(rs *reqSpec) (issued bool, tok tokenResponse, f reqFacts, re
 	e := n.e
 	form := e.buildForm(rs)
 	f = e.facts(form)
+	f.Tenant = rs.Tenant
+	if f.Tenant == "" {
+		f.Tenant = subject
+	}
 	refOK, clause = e.ref(f, n.nonces)
-	status, body := n.post("/oauth2/"+subject+"/token", form)
+	status, body := n.post("/oauth2/"+f.Tenant+"/token", form)
 	_ = json.Unmarshal(body, &tok)
 	issued = status == 200 && tok.AccessToken != ""
 	for _, v := range f.VPs {
@@ -1100,6 +1159,12 @@ func (e *env) runLatticeCase(c latticeCase, al []defect) {
 		for i := range pre.VPs {
 			if i < len(rs.VPs) {
 				pre.VPs[i].Nonce = rs.VPs[i].Nonce
+			}
+		}
+		pre.Tenant = rs.Tenant
+		if rs.Tenant != "" {
+			for i := range pre.VPs {
+				pre.VPs[i].Aud = []string{tenantURL(rs.Tenant)}
 			}
 		}
 		if rs.Pre == "invalid" {
@@ -1191,8 +1256,8 @@ func (n *node) checkIntrospection(token string, f reqFacts, scenario string, rep
 			r.Violation("C02|introspection|member-differs-from-issuance|"+member,
 				fmt.Sprintf("introspection (%s, extended=%v) reports %s=%v, issuance established %v", scenario, ext, member, got, want), replay)
 		}
-		if in["iss"] != asURL {
-			bad("iss", in["iss"], asURL)
+		if want := tenantURL(f.Tenant); in["iss"] != want {
+			bad("iss", in["iss"], want) // a token is issued by the tenant it was asked from, and by no other
 		}
 		if in["client_id"] != f.ClientID {
 			bad("client_id", in["client_id"], f.ClientID)
@@ -1367,7 +1432,7 @@ func (m *imachine) apply(h ievent) {
 		m.tokens = append(m.tokens, issuedToken{Token: tok.AccessToken, Facts: f, Iat: vtime.Now().Unix()})
 	case "issuebad":
 		rs := e.baseRequest(0, "twoscope")
-		last(&rs).Aud = []string{publicURL + "/oauth2/bob"}
+		last(&rs).Aud = []string{tenantURL(tenantB)} // addressed to the other tenant
 		issued, tok, _, ok, clause, _ := m.n.send(&rs)
 		if issued && !ok {
 			e.r.Violation("C02|vp_token|issued-although-reference-refuses|"+clause, "defective request in an introspection history was issued a token", nil)
@@ -1439,8 +1504,8 @@ func (m *imachine) judge(hist []ievent) int {
 				r.Violation("C02|introspection|member-differs-from-issuance|"+member,
 					fmt.Sprintf("token %d: introspection reports %s=%v, issuance established %v (extended=%v)", i, member, got, want, ext), map[string]any{"hist": hist})
 			}
-			if in["iss"] != asURL {
-				bad("iss", in["iss"], asURL)
+			if want := tenantURL(tk.Facts.Tenant); in["iss"] != want {
+				bad("iss", in["iss"], want)
 			}
 			if in["client_id"] != tk.Facts.ClientID {
 				bad("client_id", in["client_id"], tk.Facts.ClientID)
